@@ -15,6 +15,9 @@ CHECKS = {
     'C05': dict(category='model_checking', engine='MultiSolve', technique='TLA+ MultiSolve.tla: TLC exhaustive over span length x (start,end) labels x options x fault position; behaviours replayed through solve() on nine span types and against an explicit solve_t loop twin',
                 text='MultiSolve.tla models solve()/iter_periods()/solve_period() step by step with per-period outcomes taken from Solver.tla terminal summaries; TLC checks visits, returned triple, containment of failures and early rejection for every behaviour within the bound; each behaviour is replayed on the real code over nine span types and compared with the spec and with a twin driven by the explicit per-period loop.',
                 note='Trusted: TLC; scripted per-period faults; spans carry distinct labels and are at least LAGS+LEADS+1 long.', ref='6.2, 7 (C05)'),
+    'C08': dict(category='model_checking', engine='Linker', technique='TLA+ Linker.tla: TLC exhaustive over submodel counts x ordered selections x options x per-iteration outcome sequences; behaviours replayed on a real BaseLinker with scripted submodels, single-submodel linkers compared with the bare model',
+                text='Linker.tla models construction and one BaseLinker.solve_t call step by step (validation, offset seeding, pre-hook, submodel passes in selection order, post-hook, judge, stamping); TLC checks order, convergence (first iteration at which every check variable moved < tol), stamping, unselected-untouched, unknown ids, span mismatch, offset and lag/lead maxima on every behaviour in the bound; each behaviour is replayed on the real linker through solve_t and solve under two value scalings, and single-submodel linkers are compared with solving the model directly.',
+                note='Trusted: TLC; scripted submodels; finite data only; MaxN<=3 submodels, MaxI<=3 iterations exhaustively.', ref='6.3, 7 (C08)'),
 }
 
 NOT_YET = {}
